@@ -194,7 +194,9 @@ func init() {
 		wireCppBeName(wc, r, "C01", []string{"enc"}, 1<<kBasic|1<<kLength|1<<kCheckSum)
 		wirePaddingSiblings(wc, r, "C01")
 		wirePaddingOutcomes(wc, r, "C01")
+		wirePaddingPrecedence(wc, r, "C01")
 		wireOneByteEndian(w, wc, r, "C01")
+		wireSequenceFrame(w, r, "C01", map[string]bool{"Field": true})
 		wireAssumptions(r)
 	})
 	register("C02", "Sensitivity of the decode emitters (as C01, for decoders) plus encode/decode symmetry per language: for each cell the decoder's dependence set must include every wire-determining input its own encoder depends on - a decoder that ignores an option its encoder honours cannot invert it. "+
@@ -223,8 +225,10 @@ func init() {
 		optionSemantics(w, r, "C03")
 		wirePaddingSiblings(wc, r, "C03")
 		wirePaddingOutcomes(wc, r, "C03")
+		wirePaddingPrecedence(wc, r, "C03")
 		wirePadSpellings(w, wc, r)
 		wireTables(w, r, "C03")
+		wireSequenceFrame(w, r, "C03", map[string]bool{"Field": true, "MatchPair": true})
 		wireAssumptions(r)
 	})
 	register("C04", "Length-of fields: (link) the parser gives the target field its LenAttr and the length field its resolved target on every path where a length field exists, with a checked lookup; (placeholder/back-patch) every codec generator has an emission under the LengthFieldAttribute case that depends on the field's type, and an emission under the LenAttr test that depends on byte order and on the length field's own type, and decoders read the field with byte order and type. "+
@@ -238,6 +242,7 @@ func init() {
 		"(dedup) a seen-set that filters the pairs is keyed by the key in decode dispatchers and by the packet in Rust's enum/encode emitters; (key) decoders consult the key field. The failure mode on an unmapped key and the dynamic type chosen are properties of emitted text and are not decided.", func(w *World, r *Report) {
 		wc := buildWire(w, r)
 		wireMatch(w, wc, r)
+		wireSequenceFrame(w, r, "C05", map[string]bool{"MatchPair": true})
 		wireAssumptions(r)
 	})
 	register("C06", "Checksum fields: every codec generator's encoder cell depends on byte order, the field's type and the algorithm name, every decoder cell on byte order and type; the field's raw type spelling is read only through GetType; the checksum emission sits inside the ordered per-field loop (so 'preceding bytes' are what earlier fields wrote). "+
